@@ -81,6 +81,11 @@ func c01Case(r *evid.Run, tier string, idx int, g *rng.R) {
 		d.Finish()
 		r.Count("cases_with_wide_elements", 1)
 	}
+	if idx%100 == 12 {
+		adoc.Deepen(g, d, rng.Pick(g, []int{17, 33, 65, 130}))
+		d.Finish()
+		r.Count("cases_with_a_deep_chain", 1)
+	}
 	w, err := newWorld(d)
 	if err == nil && idx%4 == 3 {
 		// every fourth case runs the evaluator on the independent Cursor implementation (R-ref)
